@@ -12,9 +12,22 @@ CHECKS = {
             "Held on every (prefix x opcode x second byte) head explored (thorough: the complete 1.1M structural space) with sampled payload bytes; each head decoded by get_instruction_info/text/low_level_il and Emulator.decode_instruction, re-decoded after mutations of trailing bytes, after truncation and after other decodes. Not a proof: payload bytes are sampled.",
             "Trusts binja_test_mocks as the Binary Ninja stand-in; payload bytes beyond the second byte are sampled.",
             "DESIGN.md 3/C01"),
+    "C02": ("exploration",
+            "runtime round-trip monitor on the real decode/encode and the arch text guard over enumerated encodings + don't-care bit sweeps",
+            "Held on every accepted structural head explored plus complete sweeps of selector bytes and ignored high nibbles: encode(decode(b)) reproduces the consumed bytes, the re-decoded instruction has the same tokens, length and IL, and get_instruction_text never demotes an accepted encoding.",
+            "Pure equality on the code's own functions; payload bytes sampled.", "DESIGN.md 3/C02"),
+    "C03": ("exploration",
+            "execution monitor: logging memory + logging register file around Emulator.execute_instruction, access sets compared with a README-derived addressing oracle fed by the rendered token stream",
+            "Held (modulo listed known findings) on every accepted head executed in states that make every addressing base distinguishable: write set, data-read set and pointer side effects equal what the text denotes. Undetermined cases are counted as unjudged.",
+            "Trusts vt/tok.py + vt/refisa.py (README transcription) and binja_test_mocks' IL evaluator.", "DESIGN.md 3/C03"),
+    "C04": ("exploration",
+            "execution monitor against a README reference interpreter: complete post-state comparison incl. frame condition, exhaustive 8-bit operation tables",
+            "Held (modulo listed known findings) on complete 2^17 operand tables per 8-bit operation (thorough), all unary tables, valid-BCD tables, every encoding with planted boundary operands, counted forms for I up to 255: result, C, Z, pointer/counter/stack effects equal the README and nothing else changes.",
+            "Trusts vt/refisa.py; README-undetermined outputs are don't-care and listed in the evidence.", "DESIGN.md 3/C04"),
 }
 
-NOT_APPLICABLE = []
+NOT_APPLICABLE = []  # filled automatically for properties without a check (reason below)
+PENDING_REASON = "check not built yet in this session; design in DESIGN.md section 3 - not claimed until the monitor exists and is silent on the unchanged tree"
 
 
 def main():
@@ -47,7 +60,10 @@ def main():
              "kind_free_text": "Python runtime-monitoring framework (sharded subprocess workers, online oracles, reference models, icontract in-path contracts) plus Rust client harness /verif/rust/harness driving the real sc62015-core crate"},
         ],
         "checks": checks,
-        "not_applicable": NOT_APPLICABLE,
+        "not_applicable": NOT_APPLICABLE + [
+            {"property_id": json.loads(l)["id"], "reason": PENDING_REASON}
+            for l in (ROOT / "properties.jsonl").read_text().splitlines()
+            if l.strip() and json.loads(l)["id"] not in CHECKS],
         "notes": "Exit codes: 0 held, 1 violated (VIOLATION line), 2 inconclusive (monitor never reached / watchdog / build failure; no VIOLATION line). Known findings: /verif/known_findings.json.",
     }
     (ROOT / "MANIFEST.json").write_text(json.dumps(m, indent=1) + "\n")
